@@ -12,6 +12,10 @@ package nodeslo
 //
 // A token is the compact JSON text of the leaf value (" replaced by '); lists are leaves. Which layer a node
 // must get a value from is decided by TLC only (SloLayeringTrace.tla); nothing here evaluates a selector.
+//
+// Deliberately NOT generated (whether they "set a field" / "can be parsed" is a matter of taste, so the check
+// takes no side): explicit JSON nulls, "" for omitempty string fields, explicit empty lists, an empty-string or
+// "null" section text, unknown keys, invalid label selectors, the node-bandwidth annotation.
 
 import (
 	"encoding/json"
@@ -413,10 +417,8 @@ type c20Entry struct {
 }
 
 type c20Section struct {
-	Cluster     c20Tree // nil: no clusterStrategy key
-	ClusterNull bool    // render "clusterStrategy": null
-	Entries     []c20Entry
-	Junk        bool // an unknown key next to the known ones
+	Cluster c20Tree // nil: no clusterStrategy key
+	Entries []c20Entry
 }
 
 func c20SelJSON(s c20Sel) interface{} {
@@ -449,8 +451,6 @@ func c20Render(sec string, s *c20Section) (string, *c20SecAbs) {
 		}
 	} else if s.Cluster != nil {
 		doc["clusterStrategy"] = s.Cluster
-	} else if s.ClusterNull {
-		doc["clusterStrategy"] = nil
 	}
 	var entries []interface{}
 	for i, e := range s.Entries {
@@ -467,9 +467,6 @@ func c20Render(sec string, s *c20Section) (string, *c20SecAbs) {
 	if entries != nil {
 		doc[entriesKey] = entries
 	}
-	if s.Junk {
-		doc["zzUnknownKey"] = map[string]interface{}{"x": 1}
-	}
 	b, err := json.Marshal(doc)
 	if err != nil {
 		panic(err)
@@ -481,7 +478,7 @@ func c20Render(sec string, s *c20Section) (string, *c20SecAbs) {
 func c20Malformed(sec string, cat map[string][]c20Leaf, variant int, valid string) string {
 	switch variant % 8 {
 	case 0:
-		return ""
+		return `{"clusterStrategy": {`
 	case 1:
 		return "{"
 	case 2:
@@ -880,14 +877,12 @@ func c20RandomSegment(rng *rand.Rand, cat map[string][]c20Leaf, j int) []c20Op {
 				lastText[sec] = c20Malformed(sec, cat, rng.Intn(1<<20), lastText[sec])
 				lastAbs[sec] = c20Unparsed("malformed")
 			case k < 40:
-				lastText[sec] = []string{"{}", "null", " { } "}[rng.Intn(3)]
+				lastText[sec] = []string{"{}", " { } "}[rng.Intn(2)]
 				lastAbs[sec] = c20Unparsed("parsed")
 			default:
-				cs := &c20Section{Junk: rng.Intn(8) == 0}
+				cs := &c20Section{}
 				if rng.Intn(6) > 0 {
 					cs.Cluster = c20RandTree(rng, focus[sec])
-				} else {
-					cs.ClusterNull = rng.Intn(3) == 0
 				}
 				for e := rng.Intn(4); e > 0; e-- {
 					en := c20Entry{Sel: c20RandSel(rng)}
